@@ -97,6 +97,27 @@ Proof.
   - intros k a H. destruct (B k a H) as [H1 H2]. split; [apply contexts_In; exact (Permutation_in a P H1) | exact H2].
 Qed.
 
+(* one requested architecture (however often it is listed): nothing is disqualified *)
+Lemma single_arch_wiring archs order repos a :
+  Permutation order (contexts archs) -> In a archs -> (forall b, In b archs -> b = a) ->
+  NoDup (List.map ni_id (repos a)) ->
+  wired_dq repos (by_arch_of order) a (repos a) = [] /\
+  forall world, snd (resolve_world [] repos (by_arch_of order) a (repos a) world) = resolve (arch_universe repos a) world [].
+Proof.
+  intros P Ha One Nid.
+  assert (C : forall b, In b (contexts archs) -> b = a) by (intros b Hb; apply One; apply contexts_In; exact Hb).
+  assert (N : NoDup (List.map byarch_key (contexts archs))).
+  { apply inj_nodup_map; [|apply NoDup_nodup]. intros x y Hx Hy _. rewrite (C x Hx), (C y Hy). reflexivity. }
+  assert (Sep : repos_separate repos archs).
+  { intros x Hx. rewrite (One x Hx). split; [exact Nid|]. intros b ix Hb Hne. exfalso. apply Hne. apply C. exact Hb. }
+  assert (E : wired_dq repos (by_arch_of order) a (repos a) = []).
+  { destruct (wired_dq repos (by_arch_of order) a (repos a)) as [|i t] eqn:W; [reflexivity|]. exfalso.
+    assert (Hi : In i (wired_dq repos (by_arch_of order) a (repos a))) by (rewrite W; left; reflexivity).
+    apply (build_dq_symmetric_complete archs order repos a i P N Sep Ha) in Hi.
+    destruct Hi as [_ [b [Hb [Hne _]]]]. apply Hne. apply One. exact Hb. }
+  split; [exact E|]. intros world. rewrite resolve_world_fresh, E. reflexivity.
+Qed.
+
 (* ---- witnesses --------------------------------------------------------------------------------- *)
 Definition mp (n v : string) (deps provs iif : list string) : pkg :=
   {| p_name := n; p_version := v; p_origin := n; p_deps := deps; p_provides := provs; p_install_if := iif;
